@@ -180,6 +180,13 @@ class ExprMixin:
             return a.obj == b.obj
         if isinstance(a, VConc) or isinstance(b, VConc):
             ca, cb = (a, b) if isinstance(a, VConc) else (b, a)
+            if isinstance(ca.obj, enum.Enum):
+                # a concrete Enum member against a non-concrete value (from_py keeps a member as it is: no recursion here)
+                if getattr(self.sidecar, "ENUM_ORDINAL_EQ", False) and is_leaf(cb) and cb.sort() == z3.IntSort():
+                    # same opt-in as for a symbolic member below: the Int-sorted value compared with a member is enum-shaped
+                    # (declared `enum[Cls]` = ordinal in definition order), so `x == Cls.MEMBER` compares the two ordinals
+                    return cb == self.enum_ord(ca.obj)
+                raise Unsupported(f"equality of the Enum member {ca.obj} and a {type(cb).__name__}")
             return self.eq(self.from_py(ca.obj), cb)
         if isinstance(a, VOpt) or isinstance(b, VOpt):
             if not isinstance(a, VOpt):
